@@ -862,6 +862,105 @@ def temps_execute(case):
     return out
 
 
+# ----------------------------------------------------------------------------------------------
+# part 6: re-labelling histories (nuclideBases.changeLabel is public; XSNuclide.updateBaseNuclide calls it when a
+# cross-section library uses its own labels).  The label table must stay consistent after every step.
+
+_RELABEL_NAMES = ["U235", "U238", "PU239", "FE56", "NA23", "AM242M", "AM242G", "FE", "C", "LFP35", "LREGN", "DUMP1", "DUMP2", "H3", "ZN61M3"]
+
+
+def relabel_strategy(tier):
+    # fresh labels by construction: no directory label contains a lower-case letter e..z
+    label = st.tuples(st.text(alphabet="ABUXZ0189", min_size=0, max_size=3), st.sampled_from("efghkqxyz")).map(lambda p: p[0] + p[1])
+    nuc = st.one_of(st.sampled_from(_RELABEL_NAMES), st.integers(0, 10**6))
+    step = st.fixed_dictionaries({"nuc": nuc, "op": st.sampled_from(["set", "set", "xs", "back", "same"]), "label": label})
+    return st.fixed_dictionaries({"steps": st.lists(step, min_size=1, max_size=8)})
+
+
+def _label_table_clauses(out, nb, inst_ids, where):
+    """The label clauses of the statement over the whole directory."""
+    owners = {}
+    bad_lookup = []
+    for n in nb.instances:
+        owners.setdefault(n.label, []).append(n.name)
+        if nb.byLabel.get(n.label) is not n:
+            bad_lookup.append(n)
+    out.check(not bad_lookup, "relabel/byLabel-does-not-return-the-nuclide-carrying-the-label",
+              lambda: "%s: %s" % (where, ["%s: byLabel[%r] is %r" % (n.name, n.label, getattr(nb.byLabel.get(n.label), "name", None)) for n in bad_lookup[:4]]))
+    shared = {k: v for k, v in owners.items() if len(v) > 1}
+    out.check(not shared, "relabel/label-owned-by-two-nuclides", lambda: "%s: %s" % (where, sorted(shared.items())[:3]))
+    strangers = [k for k, v in nb.byLabel.items() if id(v) not in inst_ids]
+    out.check(not strangers, "relabel/byLabel-value-not-in-instances", lambda: "%s: keys %s" % (where, sorted(strangers, key=str)[:4]))
+
+
+def relabel_execute(case):
+    from armi.nucDirectory import nuclideBases as nb
+    from armi.nuclearDataIO import xsNuclides
+
+    out = Out()
+    inst_ids = {id(n) for n in nb.instances}
+    snapshot = dict(nb.byLabel)
+    originals = {}  # id -> (nuclide, original label)
+    applied = 0
+    try:
+        _label_table_clauses(out, nb, inst_ids, "before the history")
+        steps = list(case["steps"])
+        for i, st_ in enumerate(steps):
+            key = st_["nuc"]
+            n = nb.byName[key] if isinstance(key, str) else nb.instances[key % len(nb.instances)]
+            originals.setdefault(id(n), (n, n.label))
+            orig = originals[id(n)][1]
+            op = st_["op"]
+            old = n.label
+            if op == "back":
+                new = orig
+            elif op == "same":
+                new = old
+            else:
+                new = st_["label"]
+            holder = [m for m in nb.instances if m.label == new and m is not n]
+            if holder:
+                out.label("skipped:label-in-use")  # precondition of a re-labelling: the label is free
+                continue
+            if op == "xs" and not isinstance(n, nb.DummyNuclideBase) and nb.byName.get(n.name) is n:
+                # the real caller: a library nuclide "<label><xs id>" whose metadata names the directory nuclide
+                xs = xsNuclides.XSNuclide(None, new + "AA")
+                xs.isotxsMetadata["nuclideId"] = n.name
+                xs.updateBaseNuclide()
+                out.check(xs._base is n, "relabel/xsnuclide-resolves-other-base", lambda: "step %d: %r resolved to %r" % (i, n.name, xs._base))
+                out.label("op:xs")
+            else:
+                nb.changeLabel(n, new)
+                out.label("op:" + ("set" if op == "xs" else op))
+            applied += 1
+            where = "step %d %s(%s, %r -> %r)" % (i, op, n.name, old, new)
+            out.check(n.label == new, "relabel/label-not-applied", lambda: "%s: label is %r" % (where, n.label))
+            # changeLabel promises nothing about the old key; it must at least not hand out a different nuclide
+            got_old = nb.byLabel.get(old)
+            out.check(got_old is None or got_old is n or got_old.label == old, "relabel/old-label-resolves-to-another-nuclide",
+                      lambda: "%s: byLabel[%r] is %r" % (where, old, getattr(got_old, "name", None)))
+            _label_table_clauses(out, nb, inst_ids, "after " + where)
+            out.label("kind:" + _kind(nb, n))
+        # and back again through the public function
+        for n, orig in list(originals.values()):
+            if n.label != orig:
+                nb.changeLabel(n, orig)
+                out.check(n.label == orig and nb.byLabel.get(orig) is n, "relabel/original-label-not-restored",
+                          lambda: "%s: label %r, byLabel[%r] is %r" % (n.name, n.label, orig, getattr(nb.byLabel.get(orig), "name", None)))
+        _label_table_clauses(out, nb, inst_ids, "after restoring the original labels")
+    finally:
+        # process-global state: put labels and table back without relying on the function under test
+        for n, orig in originals.values():
+            n.label = orig
+        nb.byLabel.clear()
+        nb.byLabel.update(snapshot)
+    out.evals = max(applied, 1)
+    out.nontrivial = applied >= 1
+    if len({k for k in originals}) >= 2:
+        out.label("nuclides>=2")
+    return out
+
+
 PARTS = [
     Part("nuclides", nuc_execute, enumerate=nuc_enum, exhaustive=True, procs={"quick": 3, "thorough": 8},
          rule="every nuclide of the directory, one case per atomic number (plus a catch-all for Z outside 1..120): each identifier "
@@ -881,7 +980,7 @@ PARTS = [
          bound=lambda t: "all entries of the shipped burn-chain.yaml"),
     Part("materials", mat_execute, enumerate=mat_enum, exhaustive=True, procs={"quick": 4, "thorough": 16},
          rule="every Material class in the armi.materials namespace (one case per class): instantiates; mass-fraction keys are nuclide "
-              "names, fractions in [0,1] summing to 1 (1e-5); density, pseudoDensity (> 0, finite, kg/m3 twin), linearExpansionPercent, "
+              "names, fractions in [0,1] summing to 1 (1e-5); density, pseudoDensity (> 0, finite), linearExpansionPercent, "
               "linearExpansion (finite) on a dense grid incl. both end points of the function's stated range, Tk and Tc entry agree, "
               "fluid density = pseudoDensity, the material's own range check accepts the stated range; non-trivial = every evaluation",
          bound=lambda t: "all classes; %d temperatures per stated range" % _GRID[t]),
@@ -889,4 +988,10 @@ PARTS = [
          rule="Hypothesis draws 1-6 relative positions inside a range (exact end points, 1e-6 neighbourhoods of both ends, uniform "
               "interior) and the unit of entry; each case applies them to every material property function that has a stated range "
               "(about 90 material x function pairs); same oracle as the enumeration; non-trivial = at least one evaluation"),
+    Part("relabel", relabel_execute, strategy=relabel_strategy, budget={"quick": 300, "thorough": 6000}, procs={"quick": 2, "thorough": 8},
+         rule="Hypothesis histories of 1-8 re-labellings (nuclideBases.changeLabel directly, through XSNuclide.updateBaseNuclide, back to "
+              "the original, same label) of named and arbitrary nuclides with fresh labels; after every step: the nuclide carries the "
+              "new label, byLabel[label] is that nuclide for every nuclide of the directory, no label owned by two nuclides, the old "
+              "label does not resolve to another nuclide; original labels restored (checked) and the table reset per case; "
+              "non-trivial = at least one re-labelling applied"),
 ]
